@@ -79,13 +79,13 @@ Qed.
 Lemma land32_bit5 : forallb (fun f => implb (Z.land f 32 =? 0)%Z ((f / 32) mod 2 =? 0)%Z) (ZlibHeader.zrange 0 256) = true.
 Proof. vm_compute. reflexivity. Qed.
 
-Lemma hdr_ok flags :
-  hasf flags FLAG_ZLIB = true ->
-  exists cmf flg, hdr flags 15 = [cmf; flg] /\ zlib_header_ok cmf flg = true.
+Lemma hdr_ok_wb flags wb :
+  wb <= 15 -> hasf flags FLAG_ZLIB = true ->
+  exists cmf flg, hdr flags wb = [cmf; flg] /\ zlib_header_ok cmf flg = true.
 Proof.
-  intros Z. unfold hdr. rewrite Z.
-  pose proof (ZlibHeader.header_from_flags_valid (Z.of_N flags) (Z.of_N 15) ltac:(lia)) as Hv.
-  destruct (GenZlib.header_from_flags (Z.of_N flags) (Z.of_N 15)) as [[h0 h1] okf].
+  intros Hwb Z. unfold hdr. rewrite Z.
+  pose proof (ZlibHeader.header_from_flags_valid (Z.of_N flags) (Z.of_N wb) ltac:(lia)) as Hv.
+  destruct (GenZlib.header_from_flags (Z.of_N flags) (Z.of_N wb)) as [[h0 h1] okf].
   destruct Hv as (_ & H31 & H16 & _ & H7 & Hd & Hc & Hf & _).
   exists (Z.to_N h0), (Z.to_N h1). split; [reflexivity|].
   unfold zlib_header_ok.
@@ -99,6 +99,11 @@ Proof.
   - apply N.leb_le. apply N2Z.inj_le. rewrite N2Z.inj_div, Z2N.id by lia. exact H7.
   - apply N.eqb_eq. apply N2Z.inj. rewrite N2Z.inj_mod, N2Z.inj_div, Z2N.id by lia. exact Hb5.
 Qed.
+
+Lemma hdr_ok flags :
+  hasf flags FLAG_ZLIB = true ->
+  exists cmf flg, hdr flags 15 = [cmf; flg] /\ zlib_header_ok cmf flg = true.
+Proof. apply hdr_ok_wb. lia. Qed.
 
 Section Final.
 Variables (data : list N) (flags : N).
